@@ -1,4 +1,5 @@
 import GodiProofs.Graph.Bridge
+import GodiProofs.Container.BuildOrder
 /-!
 # C06 (graph component) — topological ordering
 
@@ -132,6 +133,23 @@ theorem isTopoOrder_sound (d : Digraph) (l : List Key) (h : isTopoOrder d l = tr
   unfold sameSet at hs
   simp only [Bool.and_eq_true, List.all_eq_true, decide_eq_true_eq] at hs
   exact ⟨hs.1 k, hs.2 k⟩
+
+/-- ORDER INDEPENDENCE (container level): permuting the registration calls — any order of the `Add*`
+calls producing the same set of descriptors — does not change the verdict of Build's phases 1–3
+(circular / lifetime conflict / missing dependency / ok). Hypotheses: one registration per service
+identity and pairwise distinct graph keys, both evaluated on every generated registry by `p hyp`. -/
+theorem build_verdict_order_independent {descs descs' : List Godi.Container.Desc} (hp : descs'.Perm descs)
+    (hu : Godi.Container.ServiceUnique descs) (hk : Godi.Container.KeysDistinct descs) :
+    Godi.Container.verdict descs' = Godi.Container.verdict descs :=
+  Godi.Container.verdict_order_independent hp hu hk
+
+/-- … and the dependency relation itself (what the graph records) is a property of the registration set -/
+theorem build_graph_relation_order_independent {descs descs' : List Godi.Container.Desc} (hp : descs'.Perm descs)
+    (hk : Godi.Container.KeysDistinct descs) (a b : Key) :
+    b ∈ (Godi.Container.buildGraph descs').edges a ↔ b ∈ (Godi.Container.buildGraph descs).edges a := by
+  rw [Godi.Container.buildGraph_edge_mem descs' (Godi.Container.keysDistinct_perm hp hk),
+    Godi.Container.buildGraph_edge_mem descs hk, Godi.Container.graphInput_edge_iff,
+    Godi.Container.graphInput_edge_iff, Godi.Container.edgeRel_perm hp]
 
 /-! non-vacuity: a concrete three-node graph built the way `Build` builds it satisfies the
 hypotheses, and the model sorts it dependencies-first -/
